@@ -830,7 +830,24 @@ class Executor:
             return False
         if k == "PLit":
             lit = self.expr(pat["e"], env)
+            v0 = deref(val)
+            if isinstance(v0, Z) and z3.is_bv(v0.e) and isinstance(lit, int):
+                return self.decide(v0.e == lit)
             return self.decide(self.eq(val, lit))
+        if k == "PRange":
+            lo = self.expr(pat["start"], env) if pat["start"] is not None else None
+            hi = self.expr(pat["end"], env) if pat["end"] is not None else None
+            v = deref(val)
+            if isinstance(v, Z) and z3.is_bv(v.e):
+                c = []
+                if lo is not None:
+                    c.append(z3.UGE(v.e, lo))
+                if hi is not None:
+                    c.append(z3.ULE(v.e, hi) if pat["incl"] else z3.ULT(v.e, hi))
+                return self.decide(z3.And(*c))
+            if isinstance(v, int):
+                return (lo is None or v >= lo) and (hi is None or (v <= hi if pat["incl"] else v < hi))
+            raise Unsupported("range pattern on %r" % (v,))
         if k == "PPath":
             return self._match_variant(pat["path"], [], None, val, env, irrefutable, unit=True)
         if k == "PTupleStruct":
